@@ -627,6 +627,16 @@ func (lf *lexFolder) run(fr *lexFrame, pos int, reads int, emitted string, lastW
 				if t, ok := f.eval(in.Tuple); ok && t.kind == 't' && in.Index < len(t.tup) && t.tup[in.Index].kind != 0 {
 					fr.env[in] = t.tup[in.Index]
 				}
+			case *ssa.Lookup:
+				// a lookup in a table that does not fold (not constant, or of a shape
+				// the folder does not read): what follows depends on it — not decided
+				if base, okb := f.eval(in.X); !okb || base.kind != 'm' {
+					if rootGlobal(in.X) != nil {
+						lf.record(lexOutcome{kind: "gap", what: "lookup in a table that is not folded at " + c.pos(in.Pos())})
+						return
+					}
+				}
+				f.step(in)
 			default:
 				// pure instructions are folded; anything else leaves its value unknown
 				if st := f.step(in); st != nil && st.kind == "panic" {
